@@ -26,7 +26,7 @@ def run(ctx):
     load = [fx.by_path[p] for p in sorted(CG.load_cone(fx)) if fx.by_path[p].kind != 'promoted']
     entry = [b for b in fx.bodies if b.name in ('asefile::file::AsepriteFile::read_file', 'asefile::file::AsepriteFile::read')]
     n = iorules.exact_reads_only(ctx, load + entry, 'Y1')
-    ctx.floor('I/O call sites in the loader cone', n, 14)
+    ctx.floor('I/O call sites in the loader cone', n, 10)
     iorules.take_bytes_length_check(ctx, 'Y1')
     iorules.reader_dependent_state(ctx, load + entry, 'Y2')
 
@@ -85,7 +85,7 @@ def run(ctx):
             ctx.inst('Y3', '%s -> %s' % (b.name.split('asefile::')[-1], c.callee.split('::')[-1]), ok,
                      'io::Result of %s is converted by %s; must reach From<io::Error> (map_err(to_ase) / ? / into())' % (c.callee, how or 'NOTHING'),
                      c.span, key=ctx.key(b.name, 'Y3', 'io-result', c.callee))
-    ctx.floor('io::Result call sites', nio, 12)
+    ctx.floor('io::Result call sites', nio, 8)
     ta = ctx.anchor('asefile::reader::to_ase')
     if ta is not None:
         t = res(ta).ret()
